@@ -129,12 +129,14 @@ CLAIMED.update({
 CLAIMED.update({
  "C03": dict(text=_T % "C03" + "refinement for RV64IMA: for every provider and program image, while the reference machine (running on its own memory) leaves the code intact, stays on decoded instructions and keeps accesses "
              "below 2^64, the emulator (Overlay(Bytes image, Sparse), RegMap) makes the same successful steps and stays related to the reference state after every step, reports exactly the registers/bytes read and written, "
-             "returns the error iff the pc is not at an instruction start, and never panics; start relation proved for any consistent provider. Composes C01, C02, C09, C14-C16, C18. Assumptions outside this model: "
+             "returns the error iff the pc is not at an instruction start, and never panics; never-panics is unconditional in the accesses (F45 repaired: an access with addr + w >= 2^64 makes Step return an error, "
+             "the state then results from provider fills only, the instruction pointer stays); start relation proved for any consistent provider. Composes C01, C02, C09, C14-C16, C18. Assumptions outside this model: "
              "Code/Block address lookup exact (C07) and deps.Code's instructions = lifting of the image (C21)",
              note=_N + "The RISC-V reference is my transcription of the ISA manual; the provider is an arbitrary function with a log.",
              technique="Lean 4 refinement proof (induction over step count) + step-by-step correspondence and reference-machine oracle on generated programs"),
  "C04": dict(text=_T % "C04" + "for an arbitrary provider: every request is for state unknown at that moment and exactly for the missing sub-ranges, the whole request log is pairwise disjoint (nothing asked twice), asked state is known "
-             "afterwards, reads of known state ask nothing and supplied values persist until overwritten; runs never panic (memory accesses within C14's domain)",
+             "afterwards, reads of known state ask nothing and supplied values persist until overwritten; runs never panic, whatever memory the program accesses (a step whose access leaves the address space is an error; "
+             "its provider calls belong to the log and satisfy the same claims)",
              note=_N, technique="Lean 4 proof (invariants over the request log) + correspondence of the logged provider requests"),
 })
 
